@@ -5,6 +5,11 @@
 //! re-associates `a + (b + c)`": it never nests the same associative operator on the right.
 use crate::util::Rng;
 
+thread_local! {
+  /// set while the finding "re-association" is open (vh syntax-modules --avoid-assoc-region)
+  pub static AVOID_ASSOC_REGION: std::cell::Cell<bool> = const { std::cell::Cell::new(false) };
+}
+
 #[derive(Clone)]
 enum G {
   Atom(String),
@@ -150,7 +155,7 @@ fn expr(rng: &mut Rng, d: usize) -> G {
       let mut r = expr(rng, d1);
       // stay out of the open finding's region: same associative operator nested on the right
       if let G::Bin(rop, ..) = &r {
-        if *rop == op && matches!(op, "+" | "*" | "&&" | "||" | "::") {
+        if AVOID_ASSOC_REGION.with(|a| a.get()) && *rop == op && matches!(op, "+" | "*" | "&&" | "||" | "::") {
           r = atom(rng);
         }
       }
